@@ -89,17 +89,19 @@ def judge_gcp(out, x, g, lb, ub, mats, B, xcp, c, where, tags):
         # of the projected path, and no increase of the model
         out.count("stop_or_continue_decision_at_threshold")
         tt = []
+        thi = []  # per free variable: the largest path parameter its position is compatible with (its displacement t*g_i is resolved to a few ulp of x_i)
         for i in range(n):
             inside = lb[i] < xcp[i] < ub[i]
             if g[i] != 0 and inside:
                 tt.append((x[i] - xcp[i]) / g[i])
+                thi.append(tt[-1] + 64 * EPS * max(1.0, abs(float(x[i]))) / abs(float(g[i])))
             elif g[i] == 0 and xcp[i] != x[i]:
                 out.violate("gcp_off_the_projected_path", f"{where}: variable {i} has zero gradient but moved", **tags)
                 return True
         if tt and not (max(tt) - min(tt) <= 1e-9 * max(abs(max(tt)), 1e-300) + 64 * EPS * max(1.0, float(np.max(np.abs(x)))) / max(float(np.min(np.abs(g[g != 0]))), 1e-300)):
             out.violate("gcp_off_the_projected_path", f"{where}: the free variables of x_cp correspond to different path parameters t in [{min(tt)!r}, {max(tt)!r}]", **tags)
             return True
-        tpar = max(tt) if tt else np.inf
+        tpar = min(thi) if thi else np.inf
         for i in range(n):
             on = (xcp[i] == lb[i] and g[i] > 0) or (xcp[i] == ub[i] and g[i] < 0)
             if on and np.isfinite(t[i]) and t[i] > 0 and tt and not (t[i] <= tpar * (1 + 1e-8)):
@@ -273,6 +275,7 @@ def build_pattern_input(rng, pats, variant):
 
 
 def cases(tier, seed):
+    yield {"kind": "witness"}
     nmax = 2 if tier == "quick" else 3
     for n in range(1, nmax + 1):
         allp = list(itertools.product(range(len(VARP)), repeat=n))
@@ -316,6 +319,63 @@ def cases(tier, seed):
 
 
 _LOGCFG = {"n": 0, "debug": None, "info": None, "counts": {}}
+
+
+WITNESS_F2_CANCELS = {  # captured from a real run (C13 thorough sweep, seed 1): the curvature along the only free, unbounded variable
+    # (y_0/s_0 = 1.7e-8) is 3e-19 times theta, and theta*d.d - p'Mp cancels to exactly 0.0
+    "x": ["0x1.6d35b1de870c8p+2", "0x1.849935eb6e812p-1", "0x1.9bf21ad46bc6bp-5"],
+    "g": ["-0x1.21a8c00000000p-27", "0x1.7c6aa08a2ad86p+2", "0x1.843be91698b0fp+7"],
+    "lb": ["-0x1.4b49ff4d3a773p-2", "0x1.849935eb6e812p-1", "0x1.9bf21ad46bc6bp-5"],
+    "s": ["0x1.61c8dde82f4a7p+2", "0x0.0p+0", "0x0.0p+0"],
+    "y": ["0x1.9d0745e974000p-24", "0x1.4dc1591de2a1fp+1", "0x1.6ff34ceb6e100p+7"],
+}
+
+
+def witness_case(out, keys):
+    """One stored pair whose curvature along the only free (and unbounded) variable is far below eps*theta: the second derivative of the
+    model along the path, theta*d.d - p'Mp, is pure cancellation. Whatever it rounds to, the routine must return a finite feasible point
+    that does not increase the model."""
+    from collections import deque
+
+    from lbfgsb.bfgsmats import LBFGSB_MATRICES, update_lbfgs_matrices
+
+    W_ = {k: np.array([float.fromhex(v) for v in a]) for k, a in WITNESS_F2_CANCELS.items()}
+    n = 3
+    rng = np.random.default_rng(7)
+    for rep in range(40):
+        sc = 1.0 if rep == 0 else float(np.exp(rng.uniform(-3, 3)))  # the same geometry in other units of f (exact for powers of two)
+        if rep % 2 == 1:
+            sc = float(2.0 ** int(rng.integers(-8, 9)))
+        x, g, lb, s_, y_ = W_["x"], W_["g"] * sc, W_["lb"], W_["s"], W_["y"] * sc
+        ub = np.full(n, np.inf)
+        xa = x - s_
+        X, G = deque([xa.copy()]), deque([np.zeros(n)])
+        mats = update_lbfgs_matrices(x.copy(), y_.copy(), X, G, 5, LBFGSB_MATRICES(n), False)
+        if not has_pairs(mats):
+            out.count("witness_pair_rejected")
+            continue
+        out.count("inputs_whose_path_curvature_is_pure_cancellation")
+        try:
+            xcp, c = call_gcp(x, g, lb, ub, mats)
+        except Exception as e:
+            out.violate("gcp_raised", f"witness (curvature along the free variable 3e-19 * theta, units x{sc:g}): get_cauchy_point raised {e!r}", source="witness")
+            return
+        xcp = np.asarray(xcp, dtype=float)
+        if not (np.all(np.isfinite(xcp)) and np.all(np.isfinite(np.asarray(c, dtype=float)))):
+            out.violate("gcp_not_finite", f"witness (units x{sc:g}): Cauchy point {xcp.tolist()} / auxiliary vector {np.asarray(c).tolist()}", source="witness")
+            return
+        if not probes.in_box(xcp, lb, ub):
+            out.violate("gcp_infeasible", f"witness (units x{sc:g}): x_cp={xcp.tolist()} outside the box", source="witness")
+            return
+        if not np.array_equal(xcp[1:], x[1:]):
+            out.violate("outward_variable_moved", f"witness (units x{sc:g}): variables resting on their bound with outward gradient moved: {xcp.tolist()}", source="witness")
+            return
+        B = dense_from_compact(mats, n)
+        mv = model_value(B, g, x, xcp)
+        if not (mv <= model_tol(B, g, x, xcp, rel=1e-12)):
+            out.violate("model_increase", f"witness (units x{sc:g}): m(x_cp)-m(x)={mv:.3e} > 0", source="witness")
+            return
+    keys.add("witness/f2_cancels")
 
 
 def call_gcp(x, g, lb, ub, mats):
@@ -600,6 +660,9 @@ def run(spec):
                 if out.violations:
                     break
             out.sample = dict(spec=spec, last_input=last)
+        elif spec["kind"] == "witness":
+            witness_case(out, keys)
+            out.sample = dict(spec=spec)
         elif spec["kind"] == "ties":
             # exact ties: dyadic data, so that several variables reach their bounds at exactly the same t
             rng = np.random.default_rng(spec["seed"])
